@@ -6,8 +6,12 @@ MCView == <<st, cpc, ready, outcome, ctxDone, sent, npc, rdpc, rdarg, unread, dp
             hpc, released, hctx, rp, isnotif, canpc, clpc, wtpc, transportClosed>>
 NoCancelOf == <<>>
 NoDupOf == <<>>
-Cancel1 == [x3 |-> "r1"]
-Dup1 == [r2 |-> "r1"]
+\* naming convention shared with the scenario harness: r* calls, n* notifications,
+\* x<i> the cancel notification naming r<i>, d<i> a call re-using the wire id of r<i>
+Cancel1 == [x1 |-> "r1"]
+Dup1 == [d1 |-> "r1"]
+CancelAll3 == [x1 |-> "r1", x2 |-> "r2", x3 |-> "r3"]
+DupAll2 == [d1 |-> "r1", d2 |-> "r2"]
 \* reachability witnesses (each must be VIOLATED somewhere, else the model is vacuous)
 W_NeverTwoHandlers == Cardinality({r \in Reqs : hpc[r] = "run"}) <= 1
 W_NeverDone == ~st.done
